@@ -189,6 +189,88 @@ theorem glif_roundtrip_partial_no_object_libs (hc : Codec f rd nc ok) {g : Glyph
 
 end
 
+/-! ### the newline guard, from the oracle's feature test -/
+
+section
+open Spec02
+
+theorem dictHasNewline_append (a b : Dict) : dictHasNewline (a ++ b) = (dictHasNewline a || dictHasNewline b) := by
+  induction a with
+  | nil => simp [dictHasNewline]
+  | cons e r ih =>
+    obtain ⟨k, v⟩ := e
+    simp [dictHasNewline, ih, Bool.or_assoc]
+
+theorem dictHasNewline_flatMap {α : Type} (e : α → Dict) (xs : List α) (h : ∀ x, x ∈ xs → dictHasNewline (e x) = false) :
+    dictHasNewline (xs.flatMap e) = false := by
+  induction xs with
+  | nil => simp [dictHasNewline]
+  | cons x r ih =>
+    rw [List.flatMap_cons, dictHasNewline_append, h x List.mem_cons_self,
+      ih (fun y hy => h y (List.mem_cons_of_mem _ hy))]
+    rfl
+
+theorem validIdent_no_newline {i : Str} (h : validIdent i = true) : '\n' ∉ i := by
+  simp only [validIdent, Bool.and_eq_true, List.all_eq_true, decide_eq_true_eq] at h
+  intro hm
+  exact absurd (h.2 _ hm) (by decide)
+
+theorem ent_no_newline {id : Option Str} {lib : Option Dict} (hi : ∀ i, id = some i → validIdent i = true)
+    (hl : ∀ l, lib = some l → dictHasNewline l = false) : dictHasNewline (ent id lib) = false := by
+  cases lib with
+  | none => cases id <;> simp [ent, dictHasNewline]
+  | some l =>
+    cases id with
+    | none => simp [ent, dictHasNewline]
+    | some i => simp [ent, dictHasNewline, pvHasNewline, validIdent_no_newline (hi i rfl), hl l rfl]
+
+/-- the guard of `glif_roundtrip_partial` from the oracle's own feature test: if no lib of the glyph (its own or an
+    object's) has a newline in a string or key, the lib that is written has none either -/
+theorem writtenLib_no_newline {ok : Nat → Prop} {g : Glyph} (hv : ValidGlyph ok g)
+    (hkey : dictGet objectLibsKey g.lib = none)
+    (h : (allLibs g).any dictHasNewline = false) : dictHasNewline (writtenLib g) = false := by
+  have hall : ∀ d, d ∈ allLibs g → dictHasNewline d = false := by
+    intro d hd
+    have := List.any_eq_false.1 h d hd
+    simpa using this
+  have h0 : dictHasNewline g.lib = false := hall _ (by simp [allLibs])
+  have hA : ∀ a, a ∈ g.anchors → ∀ l, a.lib = some l → dictHasNewline l = false := by
+    intro a ha l hl
+    exact hall l (by simp only [allLibs, List.mem_cons, List.mem_append, List.mem_map]; exact Or.inr (Or.inl (Or.inl (Or.inl ⟨a, ha, by simp [optDict, hl]⟩))))
+  have hG : ∀ a, a ∈ g.guidelines → ∀ l, a.lib = some l → dictHasNewline l = false := by
+    intro a ha l hl
+    exact hall l (by simp only [allLibs, List.mem_cons, List.mem_append, List.mem_map]; exact Or.inr (Or.inl (Or.inl (Or.inr ⟨a, ha, by simp [optDict, hl]⟩))))
+  have hC : ∀ c, c ∈ g.contours → (∀ l, c.lib = some l → dictHasNewline l = false) ∧
+      ∀ p, p ∈ c.points → ∀ l, p.lib = some l → dictHasNewline l = false := by
+    intro c hc
+    refine ⟨fun l hl => hall l ?_, fun p hp l hl => hall l ?_⟩
+    · simp only [allLibs, List.mem_cons, List.mem_append, List.mem_flatMap]
+      exact Or.inr (Or.inl (Or.inr ⟨c, hc, by simp [optDict, hl]⟩))
+    · simp only [allLibs, List.mem_cons, List.mem_append, List.mem_flatMap, List.mem_map]
+      exact Or.inr (Or.inl (Or.inr ⟨c, hc, Or.inr ⟨p, hp, by simp [optDict, hl]⟩⟩))
+  have hK : ∀ a, a ∈ g.components → ∀ l, a.lib = some l → dictHasNewline l = false := by
+    intro a ha l hl
+    exact hall l (by simp only [allLibs, List.mem_cons, List.mem_append, List.mem_map]; exact Or.inr (Or.inr ⟨a, ha, by simp [optDict, hl]⟩))
+  have hol : dictHasNewline (dumpObjectLibs g) = false := by
+    rw [dumpObjectLibs_eq hv.idents]
+    simp only [dictHasNewline_append, Bool.or_eq_false_iff]
+    refine ⟨?_, ?_, ?_, ?_⟩
+    · exact dictHasNewline_flatMap _ _ (fun a ha => ent_no_newline (hv.anchors a ha).ident (hA a ha))
+    · exact dictHasNewline_flatMap _ _ (fun a ha => ent_no_newline (hv.guidelines a ha).ident (hG a ha))
+    · refine dictHasNewline_flatMap _ _ (fun c hc => ?_)
+      rw [entsC, dictHasNewline_append, ent_no_newline (hv.contours c hc).ident (hC c hc).1]
+      exact dictHasNewline_flatMap _ _ (fun p hp => ent_no_newline ((hv.contours c hc).points p hp).ident ((hC c hc).2 p hp))
+    · exact dictHasNewline_flatMap _ _ (fun a ha => ent_no_newline (hv.components a ha).ident (hK a ha))
+  unfold writtenLib
+  simp only
+  split
+  · exact h0
+  · rw [dictInsert_fresh ((dictGet_none_iff _ _).1 hkey), dictHasNewline_append, h0]
+    have : '\n' ∉ objectLibsKey := by decide
+    simp [dictHasNewline, pvHasNewline, hol, this]
+
+end
+
 /-! ### the round trip, object libs included -/
 
 section
@@ -205,15 +287,17 @@ def normGL (nc : Color → Color) (g : Glyph) : Glyph :=
     image := g.image.map (pImage nc) }
 
 /-- **glif_roundtrip_partial**: for every valid glyph — object libs included, each on an object with an identifier —
-    under the guards the recorded findings force (no newline in any string or key of the lib that is written, a note
+    under the guards the recorded findings force (no newline in any string or key of any lib of the glyph — the oracle's
+    own `lib-newline` feature test `Spec02.guardFeatures` —, a note
     that is its own non-empty trim, an advance that is normal or `+0`, the reserved key unused) the parser accepts what
     the writer produces, for ANY options, and returns `normGL nc g`, which does not mention the options. -/
 theorem glif_roundtrip_partial (hc : Codec f rd nc ok) {g : Glyph} (hv : ValidGlyph ok g) (hl : LibsIdentified g)
     (hkey : dictGet objectLibsKey g.lib = none)
-    (hnl : Spec02.dictHasNewline (writtenLib g) = false)
+    (hnl : (Spec02.allLibs g).any Spec02.dictHasNewline = false)
     (hnote : ∀ n, g.note = some n → trimText n = n ∧ n ≠ [])
     (hadv : (isNormal g.width = true ∨ g.width = 0) ∧ (isNormal g.height = true ∨ g.height = 0)) :
     parseGlif rd (encodeGlif f g) = .ok (normGL nc g) := by
+  replace hnl := writtenLib_no_newline hv hkey hnl
   rw [parse_encode hc hv]
   have hlib : (preG f nc g).lib = writtenLib g := by
     simp only [preG]
